@@ -4,9 +4,20 @@ package zz_verif_sim
 // with the model store after every op, under interleaved host writes and
 // failing statements.
 
-import "fmt"
+import (
+	"fmt"
+
+	"github.com/remieven/ysgo/variable"
+)
+
+func newInMemoryStorer() *variable.InMemoryStorer { return variable.NewInMemoryStorer() }
+
+func hashHex(v any) string { return fmt.Sprintf("%016x", hashJSON(v)) }
 
 func c03World(tp *Tape, env *Env) (*Plan, *Violation) {
+	if tp.Chance(15, "storerhistory") {
+		return c03StorerWorld(tp, env)
+	}
 	cfg := &GenCfg{
 		MaxNodes: 3, MaxStmts: 6, MaxDepth: 2, MaxTotal: 30,
 		WLine: 5, WOptions: 2, WIf: 3, WSet: 14, WDeclare: 4, WJump: 1, WStop: 0, WCall: 0,
@@ -140,4 +151,81 @@ func c03Exec(plan *Plan, st *Stats) *Violation {
 		return nil
 	}
 	return v
+}
+
+// ---- histories on the in-memory storer itself (the storage seam a host can hold and write to) ----
+
+type storerOp struct {
+	K    string `json:"k"` // setn setb sets clear
+	Name string `json:"name,omitempty"`
+	N    int    `json:"n,omitempty"`
+}
+
+func c03StorerWorld(tp *Tape, env *Env) (*Plan, *Violation) {
+	names := []string{"x", "y", "armed"}
+	n := tp.Int(2, 30, "nstorerops")
+	var ops []storerOp
+	for i := 0; i < n; i++ {
+		k := []string{"setn", "setb", "sets", "clear"}[tp.Pick([]int{6, 6, 6, 1}, "storerop")]
+		ops = append(ops, storerOp{K: k, Name: names[tp.Int(0, len(names)-1, "storername")], N: tp.Int(0, 3, "storerval")})
+	}
+	plan := &Plan{Harness: 1, Property: "C03", Extra: map[string]any{"storer_ops": ops}}
+	journal(plan)
+	return plan, c03StorerExec(ops, env.St)
+}
+
+func c03StorerExec(ops []storerOp, st *Stats) *Violation {
+	s := newInMemoryStorer()
+	model := map[string]Val{}
+	typeSwitches := 0
+	for i, o := range ops {
+		var v Val
+		switch o.K {
+		case "setn":
+			v = numV(float64(o.N))
+			s.SetNumberValue(o.Name, v.N)
+		case "setb":
+			v = boolV(o.N%2 == 1)
+			s.SetBooleanValue(o.Name, v.B)
+		case "sets":
+			v = strV([]string{"", "a", "bc", "d e"}[o.N%4])
+			s.SetStringValue(o.Name, v.S)
+		case "clear":
+			s.Clear()
+			model = map[string]Val{}
+		}
+		if o.K != "clear" {
+			if prev, ok := model[o.Name]; ok && prev.K != v.K {
+				typeSwitches++
+			}
+			model[o.Name] = v
+		}
+		vals := s.GetValues()
+		if len(vals) != len(model) {
+			return &Violation{Clause: "C03.two-types", OpIndex: i, Expected: fmtStrMap(canonStore(model)), Observed: len(vals), Note: "GetValues reports another number of variables than the host stored"}
+		}
+		for _, name := range []string{"x", "y", "armed", "never"} {
+			want, has := model[name]
+			gv, found := s.GetValue(name)
+			got, ok := fromYarn(gv)
+			all, inAll := vals[name]
+			allV, okAll := fromYarn(&all)
+			switch {
+			case has != found || has != inAll || has != s.Contains(name):
+				return &Violation{Clause: "C03.two-types", OpIndex: i, Expected: has, Observed: []bool{found, inAll, s.Contains(name)}, Note: "GetValue / GetValues / Contains disagree about the presence of " + name}
+			case has && (!ok || !okAll || got.canon() != want.canon() || allV.canon() != want.canon()):
+				return &Violation{Clause: "C03.store", OpIndex: i, Expected: want.canon(), Observed: []string{got.canon(), allV.canon()}, Note: "the value the host wrote under " + name + " is not the value read back (GetValue, GetValues)"}
+			}
+		}
+	}
+	if st != nil {
+		st.inc("cases", 1)
+		st.inc("storer_history_ops", int64(len(ops)))
+		st.probe("storer_history")
+		if typeSwitches >= 2 {
+			st.distinct("nontrivial", hashStr("storer", hashHex(ops)))
+			st.probe("storer_history_with_two_type_switches_on_one_name")
+		}
+	}
+	return nil
 }
